@@ -835,7 +835,7 @@ fn do_new_epoch(s: &mut Hub, ctx: &mut Ctx, caller: &str, fault: Fault, opname: 
         ctx.probe("pipeline_checks_skipped_after_distribution_asset_switch");
     } else {
         ctx.eval("C10");
-        check_pipeline(s, ctx, &pre, &post, &r.outcome, &new, n as u64 + 1, amount_of(&rolled, &whale));
+        check_pipeline(s, ctx, &pre, &post, &r.outcome, &new, n as u64 + 1, amount_of(&rolled, &whale), r.fault_fired);
     }
 
     // adopt
@@ -853,7 +853,7 @@ fn do_new_epoch(s: &mut Hub, ctx: &mut Ctx, caller: &str, fault: Fault, opname: 
 }
 
 #[allow(clippy::too_many_arguments)]
-fn check_pipeline(s: &Hub, ctx: &mut Ctx, pre: &Obs, post: &Obs, out: &Outcome, new: &Epoch, new_id: u64, rolled_whale: u128) {
+fn check_pipeline(s: &Hub, ctx: &mut Ctx, pre: &Obs, post: &Obs, out: &Outcome, new: &Epoch, new_id: u64, rolled_whale: u128, fault_fired: bool) {
     let fl = flows(s, out);
     let col = &s.collector;
     let zero = [0u128; 5];
@@ -947,6 +947,41 @@ fn check_pipeline(s: &Hub, ctx: &mut Ctx, pre: &Obs, post: &Obs, out: &Outcome, 
                 } else {
                     "asset_left_route_unusable"
                 });
+                // an asset may stay behind only for a reason of its own (no route, a route that cannot be
+                // simulated, an amount at or below the minimum): with a registered route whose pairs are all
+                // registered, no injected fault in this transaction and a router that prices the route for
+                // exactly this amount, it has to be swapped
+                if let Some(kind) = s.model.routes[a - 1] {
+                    if untouched > 1_000 && !fault_fired && route_pairs(a, kind).iter().all(|p| s.model.pair_registered[*p]) {
+                        let sim: Result<router::SimulateSwapOperationsResponse, String> = query(
+                            &s.app,
+                            &s.router,
+                            &router::QueryMsg::SimulateSwapOperations { offer_amount: Uint128::new(untouched), operations: s.route_msg(a, kind).swap_operations },
+                        );
+                        if let Ok(sim) = sim {
+                            // N10 (bug-compatible predicate): the aggregation's working list is built from ONE
+                            // page of at most 30 children per factory; an asset that no registered first-page
+                            // pool or vault lists is never looked at
+                            let listed = (0..s.pairs.len()).any(|p| s.model.pair_registered[p] && pair_assets(p).contains(&a) && pair_on_first_page(s, p))
+                                || (0..2).any(|v| s.vault_asset[v] == a && vault_on_first_page(s, v));
+                            if !listed {
+                                ctx.probe("n10_asset_of_no_first_page_child_not_aggregated");
+                            }
+                            ctx.fail(
+                                "C10",
+                                "asset_either",
+                                if listed { "routable_asset_left_in_collector" } else { "asset_of_no_first_page_child_not_aggregated" },
+                                if listed { None } else { Some("N10") },
+                                format!(
+                                    "collector keeps {untouched} of asset {a} although its route (kind {kind}) is registered, every pair on it is registered and the router prices it at {}",
+                                    sim.amount
+                                ),
+                            );
+                        } else {
+                            ctx.probe("asset_left_route_really_unpriceable");
+                        }
+                    }
+                }
             }
         } else if after == 0 {
             ctx.probe("asset_swapped_through_route");
